@@ -48,6 +48,9 @@ impl Check for C23 {
     fn id(&self) -> &'static str {
         "C23"
     }
+    fn in_panic_watch(&self) -> bool {
+        false
+    }
     fn cases(&self, tier: Tier) -> u64 {
         tier.pick(1500, 40_000)
     }
